@@ -188,6 +188,24 @@ CLAIMED["C21"] = (
     "three real classes on every enumerated and on thousands of simulated histories.", "3 C21",
     "Queue length and remainder in flight are compared with the model too, but a difference there alone is a recorded divergence; "
     "lost, duplicated or reordered bytes decide.")
+CLAIMED["C20"] = (
+    "TLA+ spec specs/memo/Segment.tla (receiver state as coded: stored gram numbers, gram count, signer known; any gram of any memo "
+    "delivered at any time; ghost history for the two listed findings): TLC exhaustive MC of NoPartialDelivery and of AtMostOnce / "
+    "DeliveredWhenComplete modulo the findings, and reachability of both findings; delivery sequences (all short + tlc -simulate) "
+    "replayed on a real receiving Memoer/AuthMemoer with real grams rent by a real sender for all four zeroth-gram codes x base64/"
+    "binary headers, delivered (text, source, signer) compared after every delivery (spec->code); segmentation sweep over every "
+    "legal gram size from the minimum up",
+    "Exhaustive model checking of reassembly under reorder/duplication/interleaving within the bounds plus conformance of the real "
+    "receivers on every enumerated and simulated delivery sequence; two known findings (redelivery, signed reorder) matched by "
+    "signature.", "3 C20", "")
+CLAIMED["C22"] = (
+    "TLA+ spec specs/memo/RxGuard.tla (allowed outcomes of servicing per datagram class with and without required signatures: "
+    "NeverRaised, AuthenticOnly) checked by TLC; real Memoer/AuthMemoer receivers serviced on every truncation, byte substitutions at "
+    "every position, header field substitutions and random bytes of real signed/unsigned, base64/binary, zeroth/non-zeroth grams, "
+    "each followed by the intact rest of the memo; every execution recorded as (class, outcome) and validated in batch by "
+    "RxGuardTrace.tla (code->spec)",
+    "Model checking of the outcome rules plus trace validation of thousands of real receive executions on altered and random "
+    "datagrams (fault enumeration over truncations and byte/field substitutions).", "3 C22", "")
 NA = {
  "C28": "pure value-fidelity of json/cbor2/msgpack + dataclass reflection: no state/transition structure for a TLA+ model to decide (DESIGN.md section 4)",
 }
